@@ -858,7 +858,23 @@ def steer_inputs(t, rng, per_class=2, tries=60):
 
 
 def value_json(kind, v):
-    return {"n": _num_text(v)} if kind == "number" else {"s": v}
+    if kind != "number":
+        return {"s": v}
+    # the same number in another SPELLING for three values out of four (trailing zeros, an exponent): numbers that are equal
+    # are equal whatever their scale, an entry `1.5` accepts the input 1.50
+    import zlib
+
+    text = _num_text(v)
+    k = zlib.crc32(text.encode()) % 4
+    if k == 1:
+        text = text + ("0" if "." in text else ".0")
+    elif k == 2:
+        text = text + ("000" if "." in text else ".000")
+    elif k == 3 and "E" not in text and "e" not in text:
+        d = Decimal(text)
+        sign, digits, exp = d.as_tuple()
+        text = "%s%sE%d" % ("-" if sign else "", "".join(map(str, digits)) + "0", exp - 1)
+    return {"n": text}
 
 
 def input_context(t, tup):
